@@ -174,7 +174,9 @@ func (p *c20) Run(ci any, env *core.Env) *core.Failure {
 		lcfg.UsePrefilter = false
 		if d, err := lazy.CompileWithConfig(n, lcfg); err == nil {
 			cache := d.NewCache()
-			oneState := d.AlphabetLen()*4 + 56 + 4*n.States() + 64
+			// one state = its transition row + list/map entries + NFA state list + accel bytes; the
+			// flat table additionally keeps one reserved row (state offsets start at stride)
+			oneState := 2*d.AlphabetLen()*4 + 56 + 4*n.States() + 64
 			for _, oi := range c.Order {
 				h := hays[oi%len(hays)]
 				d.Find(cache, h)
